@@ -9,9 +9,10 @@ one() {
   BASE=""; [ -f benign/$id/base.txt ] && BASE=$(cat benign/$id/base.txt)
   CHECKS=all; [ -f benign/$id/checks.txt ] && CHECKS=$(cat benign/$id/checks.txt)
   OUT=$(SEED_BASE=$BASE tools/seedcheck.sh benign/$id $CHECKS 2>&1)
-  bad=$(echo "$OUT" | grep "^check " | grep -v "exit=0" | cut -c1-200 | tr '\n' ';')
+  bad=$(echo "$OUT" | grep "^check " | grep -v "exit=0" | grep -v "exit=2" | cut -c1-200 | tr '\n' ';')
+  inc=$(echo "$OUT" | grep "^check " | grep "exit=2" | cut -c1-40 | tr '\n' ';')
   n=$(echo "$OUT" | grep -c "exit=0")
-  if echo "$OUT" | grep -q "DOES NOT"; then echo "$id: $(echo "$OUT" | grep 'DOES NOT')"; elif [ -z "$bad" ]; then echo "$id: quiet ($n checks)"; else echo "$id: ALARM $bad"; fi
+  if echo "$OUT" | grep -q "DOES NOT"; then echo "$id: $(echo "$OUT" | grep 'DOES NOT')"; elif [ -z "$bad" ] && [ -n "$inc" ]; then echo "$id: quiet ($n checks), NO VERDICT (exit 2, infrastructure) for: $inc"; elif [ -z "$bad" ]; then echo "$id: quiet ($n checks)"; else echo "$id: ALARM $bad"; fi
 }
 export -f one
 echo $IDS | tr ' ' '\n' | xargs -P ${PAR:-1} -I{} bash -c 'one {}'
